@@ -139,17 +139,13 @@ def instantiate_quantified(ctx, extra_terms=()):
                             continue
                     out_list.append(z3.Implies(z3.And(t >= 0, t < lt), body))
             for si in range(ns):
-                S, arr, lt = ctx.sums[si]
-                for t in ctx.index_terms[:nt]:
+                S, summand = ctx.sums[si]
+                for t in [z3.IntVal(0)] + ctx.index_terms[:nt]:
                     k = ("s", si, t.get_id())
                     if k in done:
                         continue
                     done.add(k)
-                    try:
-                        v = ops.as_real(arr.get(t))
-                    except (PyExc, NoForkAbort):
-                        continue
-                    out_list.append(z3.Implies(z3.And(t >= 0, t < lt), S(t + 1) == S(t) + v))
+                    out_list.append(z3.Implies(t >= 0, S(t + 1) == S(t) + summand(t)))
             if (len(ctx.index_terms), len(ctx.quantified), len(ctx.sums)) == key:
                 d["_inst_sig"] = key
                 break
